@@ -1481,6 +1481,73 @@ def extract_types(repo):
              unwrap(kids(n)[1]).get("kind") == "StringLiteral"]
     data["meta_builtin_name"] = one(names, "_meta_init: name of the built-in entry")
     # add functions
+    def loop_and_final(fname):
+        """the `pos > max` tests of a chunk walk: (inside the while loop, after it), each a limit or None"""
+        f = function_def(repo, TYPES_C, fname)
+        (b,) = [c for c in kids(f) if c.get("kind") == "CompoundStmt"]
+        sts = kids(b)
+        wh = [i for i, x in enumerate(sts) if x.get("kind") == "WhileStmt" and
+              any(m.get("kind") == "MemberExpr" and m.get("name") == "used" for m in walk(kids(x)[0]))]
+        if len(wh) != 1:
+            fail("%s: expected exactly one chunk walk `while (..->used == ..)`" % fname, b)
+        inside = comparisons(sts[wh[0]], "pos", env, consts)
+        after = []
+        for x in sts[wh[0] + 1:]:
+            after += comparisons(x, "pos", env, consts)
+        def lim(cmps, what):
+            vals = [v for op, v in cmps if op == ">"] + [v - 1 for op, v in cmps if op == ">="]
+            if not vals:
+                return None
+            return one(vals, what)
+        return lim(inside, fname + ": limit inside the chunk walk"), lim(after, fname + ": limit after the chunk walk")
+    data["generic_loop_max"], data["generic_final_max"] = loop_and_final("mpt_type_add")
+    data["meta_loop_max"], data["meta_final_max"] = loop_and_final("mpt_type_metatype_add")
+    # the cross-table duplicate test of the named add functions: mpt_named_traits(name, <len>)
+    dup = {}
+    for fname in ("mpt_type_metatype_add", "mpt_type_interface_add"):
+        f = function_def(repo, TYPES_C, fname)
+        calls = [n for n in walk(f) if n.get("kind") == "CallExpr" and mentions(kids(n)[0], "mpt_named_traits")]
+        if len(calls) > 1:
+            fail("%s: more than one call of mpt_named_traits" % fname, f)
+        if not calls:
+            dup[fname] = "none"
+            continue
+        a1, a2 = kids(calls[0])[1], kids(calls[0])[2]
+        if not is_ref(a1, "name"):
+            fail("%s: mpt_named_traits is not called with `name`" % fname, calls[0])
+        if mentions(a2, "nlen") and refs_var(a2, "nlen"):
+            dup[fname] = "nlen"        # strlen(name) + 1 at that point (`nlen++ < K` precedes)
+        else:
+            v, _ = const_eval(a2, env)
+            if v != -1:
+                fail("%s: unexpected length argument %d of mpt_named_traits" % (fname, v), calls[0])
+            dup[fname] = "full"
+    data["dup_lookup"] = dup
+    # mpt_named_traits: the match tests of the length-limited and of the whole-string branch
+    f = function_def(repo, TYPES_C, "mpt_named_traits")
+    (b,) = [c for c in kids(f) if c.get("kind") == "CompoundStmt"]
+    lenbr = [x for x in kids(b) if x.get("kind") == "IfStmt" and strip_parens(kids(x)[0]).get("kind") == "BinaryOperator"
+             and strip_parens(kids(x)[0]).get("opcode") == ">=" and refs_var(kids(strip_parens(kids(x)[0]))[0], "len")]
+    if len(lenbr) != 1:
+        fail("mpt_named_traits: `if (len >= 0)` branch not found", b)
+    def match_tests(region):
+        out = []
+        for n in walk(region):
+            if n.get("kind") == "IfStmt" and len(kids(n)) == 2:
+                then = single_stmt(kids(n)[1])
+                if then.get("kind") == "ReturnStmt" and kids(then) and mentions(then, "elem"):
+                    out.append(kids(n)[0])
+        return out
+    lt = match_tests(kids(lenbr[0])[1])
+    if len(lt) != 2 or not all(mentions(c, "strncmp") for c in lt):
+        fail("mpt_named_traits: expected two strncmp matches in the length-limited branch", lenbr[0])
+    data["len_exact"] = [mentions(c, "strlen") for c in lt]
+    rest = [x for x in kids(b)[kids(b).index(lenbr[0]) + 1:]]
+    ft = []
+    for x in rest:
+        ft += match_tests(x)
+    if len(ft) != 2 or not all(mentions(c, "strcmp") for c in ft):
+        fail("mpt_named_traits: expected two strcmp matches in the whole-string branch", b)
     fn = function_def(repo, TYPES_C, "mpt_type_add")
     data["generic_base"] = one(assigned_consts(fn, "pos", env, consts), "mpt_type_add: pos")
     data["generic_max"] = limit_of(comparisons(fn, "pos", env, consts), ">", ">=", -1, "mpt_type_add: pos > max")
@@ -1620,6 +1687,21 @@ def emit_typetables(data):
     L.append("def genericBase : Nat := %d" % data["generic_base"])
     L.append("def genericMax : Nat := %d" % data["generic_max"])
     L.append("def genericChunk : Nat := %d" % data["generic_chunk"])
+    def opt(v):
+        return "none" if v is None else "some %d" % v
+    L.append("/-- the `pos > limit` tests of the chunk walks: inside the `while` loop, after it -/")
+    L.append("def genericLoopMax : Option Nat := %s" % opt(data["generic_loop_max"]))
+    L.append("def genericFinalMax : Option Nat := %s" % opt(data["generic_final_max"]))
+    L.append("def metaLoopMax : Option Nat := %s" % opt(data["meta_loop_max"]))
+    L.append("def metaFinalMax : Option Nat := %s" % opt(data["meta_final_max"]))
+    L.append("/-- length argument of the `mpt_named_traits(name, len)` duplicate test of the add functions:")
+    L.append("    \"full\" = -1 (whole string, short names resolved), \"nlen\" = strlen(name) + 1, \"none\" = no such test -/")
+    L.append('def dupLookupIface : String := "%s"' % data["dup_lookup"]["mpt_type_interface_add"])
+    L.append('def dupLookupMeta : String := "%s"' % data["dup_lookup"]["mpt_type_metatype_add"])
+    L.append("/-- length-limited branch of `mpt_named_traits`: does the match test compare `len` with strlen of the entry name?")
+    L.append("    (metatype loop, interface loop) -/")
+    L.append("def lenExactMeta : Bool := %s" % ("true" if data["len_exact"][0] else "false"))
+    L.append("def lenExactIface : Bool := %s" % ("true" if data["len_exact"][1] else "false"))
     L.append("def minNameLenIface : Nat := %d   -- `nlen++ < K` of mpt_type_interface_add" % data["min_name"]["mpt_type_interface_add"])
     L.append("def minNameLenMeta : Nat := %d    -- `nlen++ < K` of mpt_type_metatype_add" % data["min_name"]["mpt_type_metatype_add"])
     L.append("def pointerSize : Nat := %d       -- pointer_traits.size" % data["pointer_size"])
